@@ -935,7 +935,7 @@ class Result:
 
 
 def explore(fn, max_paths=200000, timeout_ms=60000, stop_on_cex=True, want_witness=0, on_path=None,
-            max_cex=1):
+            max_cex=1, known_prefixes=()):
     """Run fn() under every feasible branch decision sequence (DFS).
 
     fn's normal return value (if not None) is recorded as a sample for the first few paths.
@@ -971,8 +971,14 @@ def explore(fn, max_paths=200000, timeout_ms=60000, stop_on_cex=True, want_witne
         except ProofFailed as e:
             res.stats.paths += 1
             res.status = "violation"
-            res.cex.append({"label": e.label, "model": e.model, "extra": _jsonable(e.extra)})
-            if stop_on_cex or len(res.cex) >= max_cex:
+            is_known = any(str(e.label).startswith(k) for k in known_prefixes)
+            if is_known:
+                # a listed finding: keep two examples, keep exploring so that other violations are still seen
+                if sum(1 for c in res.cex if c.get("known")) < 2:
+                    res.cex.append({"label": e.label, "model": e.model, "extra": _jsonable(e.extra), "known": True})
+            else:
+                res.cex.append({"label": e.label, "model": e.model, "extra": _jsonable(e.extra)})
+            if stop_on_cex or sum(1 for c in res.cex if not c.get("known")) >= max_cex:
                 work.extend(p.pending)
                 break
         except (Unsupported, Budget) as e:
